@@ -179,16 +179,17 @@ impl Condvar {
         // NOTICE: the following code would not drop the lock!
         // if let Some(w) = self.to_wake.lock().unwrap().pop() {
 
-        let w = self.to_wake.pop();
-
-        if let Some(w) = w {
+        // a waiter that has given up (timeout, cancel) passes the notification on to
+        // the next one: a loop, as a recursion its depth would be the number of such
+        // waiters in a row
+        while let Some(w) = self.to_wake.pop() {
             #[cfg(may_verif)]
             may_queue::verif::point(may_queue::verif::site::CV_NOTIFY_POPPED, self as *const _ as usize);
             w.unpark();
             #[cfg(may_verif)]
             may_queue::verif::point(may_queue::verif::site::CV_NOTIFY_UNPARKED, self as *const _ as usize);
-            if w.take_release() {
-                self.notify_one();
+            if !w.take_release() {
+                break;
             }
         }
     }
